@@ -12,6 +12,7 @@ import (
 	"github.com/renbou/grpcbridge/grpcadapter"
 	"github.com/renbou/grpcbridge/internal/httperr"
 	"github.com/renbou/grpcbridge/internal/syncset"
+	"github.com/renbou/grpcbridge/internal/verifhook"
 	"google.golang.org/grpc"
 	"google.golang.org/grpc/codes"
 	"google.golang.org/grpc/status"
@@ -190,6 +191,8 @@ func (srw *ServiceRouterWatcher) UpdateDesc(desc *bridgedesc.Target) {
 		return
 	}
 
+	verifhook.Point("service.update.afterCheck", srw.target)
+
 	srw.sr.updateRoutes(desc)
 }
 
@@ -205,6 +208,8 @@ func (srw *ServiceRouterWatcher) Close() {
 	if !srw.closed.CompareAndSwap(false, true) {
 		panic("grpcbridge: ServiceRouterWatcher.Close() called multiple times")
 	}
+
+	verifhook.Point("service.close.afterFlag", srw.target)
 
 	srw.sr.removeTarget(srw.target)
 	srw.sr.watcherSet.Remove(srw.target)
@@ -245,6 +250,8 @@ func (sr *ServiceRouter) updateRoutes(desc *bridgedesc.Target) {
 		presentSvcRoutes[svc.Name] = struct{}{}
 		newSvcRoutes = append(newSvcRoutes, svc.Name)
 	}
+
+	verifhook.Point("service.update.betweenPhases", desc.Name)
 
 	// Remove outdated routes
 	for _, route := range sr.svcRoutes[desc.Name] {
